@@ -87,7 +87,9 @@ func c06Payload(i, size int) []byte {
 // offsets at which each message ends (in stream coordinates).
 func (e *c06Env) encode(tc *c06Case) (stream []byte, ends []int, msgs []proto.Message) {
 	for i, sz := range tc.In {
-		m := e.t.newReq(fmt.Sprintf("m%d", i), c06Payload(i, sz), int32(i))
+		// single-field messages: protobuf-go marshals multi-field dynamic messages in unstable
+		// field order, which would make gzip sizes (and so stream lengths) vary between runs
+		m := e.t.newReq("", append([]byte(fmt.Sprintf("m%d:", i)), c06Payload(i, sz)...), 0)
 		msgs = append(msgs, m)
 		var enc []byte
 		switch tc.Transport {
@@ -135,7 +137,7 @@ func (e *c06Env) exec(tc *c06Case) c06Result {
 	}
 	var replies []proto.Message
 	for i, sz := range tc.Out {
-		replies = append(replies, e.t.newRsp(fmt.Sprintf("r%d", i), c06Payload(i+3, sz), int32(100+i)))
+		replies = append(replies, e.t.newRsp("", append([]byte(fmt.Sprintf("r%d:", i)), c06Payload(i+3, sz)...), 0))
 	}
 	wireBytes := stream
 	if tc.Transport == "webtext" {
@@ -568,7 +570,14 @@ func runC06(c *Ctx) {
 			reads += int64(res.reads)
 			local[[2]int{res.consumed, len(tc.Cuts)}] = struct{}{}
 			if res.oracle == "" {
-				outc["ok"]++
+				switch {
+				case tc.Truncate >= 0 && tc.TruncErr:
+					outc["ok:"+tc.Transport+":connection-error"]++
+				case tc.Truncate >= 0:
+					outc["ok:"+tc.Transport+":truncated"]++
+				default:
+					outc["ok:"+tc.Transport+":complete"]++
+				}
 				return
 			}
 			outc["FAIL:"+res.oracle]++
